@@ -53,15 +53,20 @@ def innermost(Qi, elem):
 def select_arity(q):
     """number of select-list items of a query, read off its own rendering (no look at private attributes)"""
     toks = lexer.lex(str(q), "sqlite")
-    n, depth0 = 1, None
-    for k, t in enumerate(toks):
-        if t["t"] == "word" and t["v"] == "SELECT" and depth0 is None:
-            depth0 = t["d"]
-        elif depth0 is not None and t["d"] == depth0:
-            if t["t"] == "word" and t["v"] == "FROM":
-                break
-            if t["t"] == "punct" and t["v"] == ",":
-                n += 1
+    sel = [t["d"] for t in toks if t["t"] == "word" and t["v"] == "SELECT"]
+    if not sel:
+        return 1
+    top = min(sel)      # the outermost statement's own select list (a WITH clause's bodies are deeper)
+    n, inside = 1, False
+    for t in toks:
+        if t["d"] != top:
+            continue
+        if t["t"] == "word" and t["v"] == "SELECT" and not inside:
+            inside = True
+        elif inside and t["t"] == "word" and t["v"] == "FROM":
+            break
+        elif inside and t["t"] == "punct" and t["v"] == ",":
+            n += 1
     return n
 
 
